@@ -33,6 +33,8 @@ Next ==
   \/ "addback" \in Alphabet /\ \E m \in 1..NMsg : Perturb("addback", m, 0, AddPollF(st, FALSE, m))
   \/ "addfront" \in Alphabet /\ \E m \in 1..NMsg : Perturb("addfront", m, 0, AddPollF(st, TRUE, m))
   \/ "conduse" \in Alphabet /\ \E m \in 1..NMsg : Perturb("conduse", m, 0, CondUseF(st, m))
+  \/ "reload" \in Alphabet /\ st' = ReloadF(st, InitPrios, ReAddPinned) /\ mon' = MonReload(mon, st'.prio)
+                           /\ obs' = [k |-> "reload", m |-> 0, a |-> 0, sel |-> 0]
   \/ "readd" \in Alphabet /\ \E m \in 1..NMsg : Perturb("readd", m, 0, ReAddF(st, m, InitPrios[m], ReAddPinned))
 
 (* S => P *)
@@ -58,6 +60,7 @@ AlphaPert == {"next", "tick", "setprio", "addback", "addfront", "conduse"}
 AlphaPertNoTick == {"next", "setprio", "addback", "addfront"}
 AlphaPertCond == {"next", "setprio", "addback", "addfront", "conduse"}
 AlphaReAdd == {"next", "readd"}
+AlphaReload == {"next", "reload", "setprio", "addfront"}
 AlphaSelf == {"next", "setprio"}
 P238 == <<2, 3, 8>>
 P18 == <<1, 8>>
